@@ -408,6 +408,8 @@ impl Complement for AdjacencyList {
     /// The time complexity is `O(v²)`, where `v` is the digraph's order.
     fn complement(&self) -> Self {
         #[cfg(graaf_verif)]
+        use crate::verif_seam::Arc;
+        #[cfg(graaf_verif)]
         use crate::verif_seam::{
             atomic,
             available_parallelism,
@@ -525,6 +527,8 @@ impl Complete for AdjacencyList {
     ///
     /// Panics if `order` is zero.
     fn complete(order: usize) -> Self {
+        #[cfg(graaf_verif)]
+        use crate::verif_seam::Arc;
         #[cfg(graaf_verif)]
         use crate::verif_seam::{
             atomic,
@@ -661,6 +665,8 @@ impl DegreeSequence for AdjacencyList {
     /// the digraph's order and `p` is the number of available threads. For
     /// dense digraphs, the time complexity is `O(v² log v / p)`.
     fn degree_sequence(&self) -> impl Iterator<Item = usize> {
+        #[cfg(graaf_verif)]
+        use crate::verif_seam::Arc;
         #[cfg(graaf_verif)]
         use crate::verif_seam::{
             atomic,
@@ -998,6 +1004,8 @@ impl IsSemicomplete for AdjacencyList {
     ///
     /// The time complexity is `O(v²)`, where `v` is the digraph's order.
     fn is_semicomplete(&self) -> bool {
+        #[cfg(graaf_verif)]
+        use crate::verif_seam::Arc;
         #[cfg(graaf_verif)]
         use crate::verif_seam::{
             atomic,
@@ -1343,6 +1351,8 @@ impl Union for AdjacencyList {
     /// the order of `self`, `v2` is the order of `other`, and `U` is the
     /// number of arcs in the union of `self` and `other`.
     fn union(&self, other: &Self) -> Self {
+        #[cfg(graaf_verif)]
+        use crate::verif_seam::Arc;
         #[cfg(graaf_verif)]
         use crate::verif_seam::{
             atomic,
